@@ -25,6 +25,9 @@ struct LoopSpec {
     /// regex on the whitespace-free loop header; the first not yet claimed loop that matches is used
     #[serde(default, rename = "match")]
     matches: Option<String>,
+    /// regex on the loop body text (in addition to `match`): robust against inserted / deleted loops
+    #[serde(default)]
+    body: Option<String>,
     /// if no loop matches: skip the invariants instead of reporting a lost anchor (used where the
     /// absence of the loop is itself what the postcondition must catch, e.g. a deleted check)
     #[serde(default)]
@@ -52,9 +55,10 @@ struct Subst {
     new: String,
     #[serde(default)]
     why: String,
-    /// if true, a missing `old` is not an error (the rule is a convenience, not an anchor)
+    /// if true, a missing `old` is a lost anchor; by default a substitution whose text is gone is
+    /// simply not applied (the code then either is in the dialect as it stands or the run is undecided)
     #[serde(default)]
-    optional: bool,
+    required: bool,
 }
 
 #[derive(Deserialize, Default, Clone)]
@@ -162,6 +166,13 @@ struct Job {
     items: Vec<ItemSpec>,
     #[serde(default)]
     prepend: String,
+    /// annotation lines (by key) to leave out — used by the driver's retry loop when an inserted line
+    /// does not type-check against the current code
+    #[serde(default)]
+    drop_keys: Vec<String>,
+    /// type-directed rule applications (by key) to leave out
+    #[serde(default)]
+    skip_sites: Vec<String>,
     #[serde(default)]
     append: String,
 }
@@ -346,6 +357,7 @@ fn fn_parts<'a>(f: &'a Found<'a>) -> Option<FnParts<'a>> {
 
 #[derive(Clone)]
 struct LoopInfo {
+    body_text: String,
     kind: &'static str, // for | while | loop
     header: String,     // normalised text up to body
     expr: Option<(usize, usize)>,
@@ -363,6 +375,7 @@ impl<'ast, 't> Visit<'ast> for LoopCollector<'t> {
         let (s, _) = br(e.for_token.span());
         let (bo, bc) = br(e.body.span());
         self.loops.push(LoopInfo {
+            body_text: self.text[bo..bc].to_string(),
             kind: "for",
             header: nows(&self.text[s..bo]),
             expr: Some(br(e.expr.span())),
@@ -374,13 +387,13 @@ impl<'ast, 't> Visit<'ast> for LoopCollector<'t> {
     fn visit_expr_while(&mut self, e: &'ast syn::ExprWhile) {
         let (s, _) = br(e.while_token.span());
         let (bo, bc) = br(e.body.span());
-        self.loops.push(LoopInfo { kind: "while", header: nows(&self.text[s..bo]), expr: None, body_open: bo, body_close: bc - 1 });
+        self.loops.push(LoopInfo { body_text: self.text[bo..bc].to_string(), kind: "while", header: nows(&self.text[s..bo]), expr: None, body_open: bo, body_close: bc - 1 });
         syn::visit::visit_expr_while(self, e);
     }
     fn visit_expr_loop(&mut self, e: &'ast syn::ExprLoop) {
         let (s, _) = br(e.loop_token.span());
         let (bo, bc) = br(e.body.span());
-        self.loops.push(LoopInfo { kind: "loop", header: nows(&self.text[s..bo]), expr: None, body_open: bo, body_close: bc - 1 });
+        self.loops.push(LoopInfo { body_text: self.text[bo..bc].to_string(), kind: "loop", header: nows(&self.text[s..bo]), expr: None, body_open: bo, body_close: bc - 1 });
         syn::visit::visit_expr_loop(self, e);
     }
 }
@@ -388,6 +401,7 @@ impl<'ast, 't> Visit<'ast> for LoopCollector<'t> {
 // ---------------------------------------------------------------- normalisation rules
 
 struct Normaliser<'t> {
+    skip_sites: &'t [String],
     method_to_fn: Vec<(Regex, String, String)>,
     eq_sites: Vec<Regex>,
     deref_operands: Vec<String>,
@@ -466,6 +480,18 @@ impl<'t> Normaliser<'t> {
     fn t(&self, s: Span) -> &'t str {
         let (a, b) = br(s);
         &self.text[a..b]
+    }
+    /// key of a type-directed rewrite site: rule + hash of the original expression text; None = skipped
+    fn site(&self, rule: &str, start: usize, end: usize) -> Option<String> {
+        use std::hash::{Hash, Hasher};
+        let mut h = std::collections::hash_map::DefaultHasher::new();
+        nows(&self.text[start..end]).hash(&mut h);
+        let key = format!("{}:{:08x}", rule, (h.finish() & 0xffff_ffff) as u32);
+        if self.skip_sites.iter().any(|k| *k == key) {
+            None
+        } else {
+            Some(format!("/*pv-rule:{}*/", key))
+        }
     }
     fn push(&mut self, start: usize, end: usize, text: String, rule: &'static str) {
         self.edits.push(Edit { start, end, text, rule });
@@ -677,8 +703,10 @@ impl<'t> Normaliser<'t> {
                 if self.deref_operands.iter().any(|d| nows(d) == t) {
                     let (s, e) = br(side.span());
                     let old = self.text[s..e].to_string();
-                    self.push(s, e, format!("(*{})", old), "N3c");
-                    any = true;
+                    if let Some(mk) = self.site("N3c", s, e) {
+                        self.push(s, e, format!("(*{}){}", old, mk), "N3c");
+                        any = true;
+                    }
                 }
             }
             if any {
@@ -702,8 +730,11 @@ impl<'t> Normaliser<'t> {
             let l = self.t(b.left.span()).to_string();
             let r = self.t(b.right.span()).to_string();
             let (s, e) = br(b.span());
-            self.push(s, e, format!("(({}) && ({}))", l, r), "N3b");
-            return true;
+            if let Some(mk) = self.site("N3b", s, e) {
+                self.push(s, e, format!("(({}) && ({})){}", l, r, mk), "N3b");
+                return true;
+            }
+            return false;
         }
         let applies = self.n3_all || is_ref(&b.left) || is_ref(&b.right) || self.n3_match.iter().any(|r| r.is_match(txt));
         if !applies {
@@ -712,8 +743,11 @@ impl<'t> Normaliser<'t> {
         let l = self.t(b.left.span()).to_string();
         let r = self.t(b.right.span()).to_string();
         let (s, e) = br(b.span());
-        self.push(s, e, format!("({}).{}({})", l, m, r), "N3");
-        true
+        if let Some(mk) = self.site("N3", s, e) {
+            self.push(s, e, format!("({}).{}({}){}", l, m, r, mk), "N3");
+            return true;
+        }
+        false
     }
 }
 
@@ -801,8 +835,10 @@ impl<'ast, 't> Visit<'ast> for Normaliser<'t> {
                     let l = self.t(b.left.span()).to_string();
                     let r = self.t(b.right.span()).to_string();
                     let (s, e) = br(b.span());
-                    self.push(s, e, format!("{}pv_eq(&({}), &({}))", if neg { "!" } else { "" }, l, r), "N17");
-                    return;
+                    if let Some(mk) = self.site("N17", s, e) {
+                        self.push(s, e, format!("{}pv_eq(&({}), &({})){}", if neg { "!" } else { "" }, l, r, mk), "N17");
+                        return;
+                    }
                 }
             }
         }
@@ -905,8 +941,10 @@ impl<'ast, 't> Visit<'ast> for Normaliser<'t> {
                     a.extend(args);
                     format!("{}({})", f, a.join(", "))
                 };
-                self.push(s, e, new, "N18");
-                return;
+                if let Some(mk) = self.site("N18", s, e) {
+                    self.push(s, e, format!("{}{}", new, mk), "N18");
+                    return;
+                }
             }
         }
         syn::visit::visit_expr_method_call(self, mc);
@@ -942,7 +980,9 @@ impl<'ast, 't> Visit<'ast> for Normaliser<'t> {
             if self.reg_index.iter().any(|r| nows(r) == t) {
                 let (s, e) = br(ix.index.span());
                 let old = self.text[s..e].to_string();
-                self.push(s, e, format!("{}.0 as usize", old), "N13");
+                if let Some(mk) = self.site("N13", s, e) {
+                    self.push(s, e, format!("{}.0 as usize{}", old, mk), "N13");
+                }
             }
         }
         syn::visit::visit_expr_index(self, ix);
@@ -1118,6 +1158,40 @@ fn sig_edits(text: &str, fp: &FnParts, on: &dyn Fn(&str) -> bool, arg_names: &BT
     }
 }
 
+/// tags every inserted annotation line with a key, leaving out the lines the driver asked to drop;
+/// a section keyword (`requires`, `ensures`, `invariant`, ..) left without clauses is removed
+fn tag_lines(text: &str, prefix: &str, per_line: bool, drop: &[String]) -> String {
+    let kw = ["requires", "ensures", "invariant", "decreases", "recommends", "invariant_except_break"];
+    let is_kw = |l: &str| kw.contains(&l.trim());
+    let mut kept: Vec<(String, String)> = vec![]; // (line, key)
+    for (i, line) in text.lines().enumerate() {
+        if line.trim().is_empty() {
+            continue;
+        }
+        let key = if per_line { format!("{}:{}", prefix, i) } else { prefix.to_string() };
+        if !is_kw(line) && drop.iter().any(|d| *d == key) {
+            continue;
+        }
+        kept.push((line.to_string(), key));
+    }
+    let mut out = String::new();
+    for k in 0..kept.len() {
+        let (line, key) = &kept[k];
+        if is_kw(line) {
+            let next_is_clause = kept.get(k + 1).map(|(l, _)| !is_kw(l)).unwrap_or(false);
+            if !next_is_clause {
+                continue;
+            }
+            out.push_str(line);
+            out.push('\n');
+            continue;
+        }
+        out.push_str(line);
+        out.push_str(&format!(" /*pv-ann:{}*/\n", key));
+    }
+    out
+}
+
 fn apply_edits(text: &str, mut edits: Vec<Edit>, item: &str, log: &mut Vec<RuleApp>) -> String {
     // choose a non-overlapping subset: outermost first (by start, then by larger size)
     edits.sort_by(|a, b| a.start.cmp(&b.start).then((b.end - b.start).cmp(&(a.end - a.start))));
@@ -1213,7 +1287,8 @@ fn main() {
             let body = &text[s..e];
             let n = body.matches(sb.old.as_str()).count();
             if n != 1 {
-                if sb.optional && n == 0 {
+                if !sb.required && n == 0 {
+                    rep.rules.push(RuleApp { rule: format!("SUBST-NOT-APPLIED {}", sb.why), item: it.path.clone(), line: 0, old: sb.old.clone(), new: String::new() });
                     continue;
                 }
                 fail(&job.report, rep, format!("lost anchor: subst in `{}` matches {} times: {:?}", it.path, n, sb.old));
@@ -1252,7 +1327,7 @@ fn main() {
             };
             for fp in &fns {
                 sig_edits(&text, fp, &on, &it.arg_names, &mut edits);
-                let mut nz = Normaliser { method_to_fn: it.method_to_fn.iter().filter_map(|(r, m, f)| Regex::new(r).ok().map(|r| (r, m.clone(), f.clone()))).collect(), eq_sites: it.eq_sites.iter().filter_map(|r| Regex::new(r).ok()).collect(), deref_operands: it.deref_operands.clone(), sends: it.sends.clone(), n2_types: it.n2_types.iter().filter_map(|(r, t)| Regex::new(r).ok().map(|r| (r, t.clone()))).collect(), let_types: it.let_types.clone(), n9: it.n9, n6: it.n6.clone(), reg_index: it.reg_index.clone(), bool_and: it.bool_and.iter().filter_map(|r| Regex::new(r).ok()).collect(), n3_all: it.n3.as_deref() == Some("all"), n3_match: it.n3_match.iter().filter_map(|r| Regex::new(r).ok()).collect(), text: &text, edits: vec![], on: &on, eager_futs: vec![] };
+                let mut nz = Normaliser { skip_sites: &job.skip_sites, method_to_fn: it.method_to_fn.iter().filter_map(|(r, m, f)| Regex::new(r).ok().map(|r| (r, m.clone(), f.clone()))).collect(), eq_sites: it.eq_sites.iter().filter_map(|r| Regex::new(r).ok()).collect(), deref_operands: it.deref_operands.clone(), sends: it.sends.clone(), n2_types: it.n2_types.iter().filter_map(|(r, t)| Regex::new(r).ok().map(|r| (r, t.clone()))).collect(), let_types: it.let_types.clone(), n9: it.n9, n6: it.n6.clone(), reg_index: it.reg_index.clone(), bool_and: it.bool_and.iter().filter_map(|r| Regex::new(r).ok()).collect(), n3_all: it.n3.as_deref() == Some("all"), n3_match: it.n3_match.iter().filter_map(|r| Regex::new(r).ok()).collect(), text: &text, edits: vec![], on: &on, eager_futs: vec![] };
                 nz.visit_block(fp.block);
                 edits.extend(nz.edits);
                 let _ = fp.whole;
@@ -1356,16 +1431,12 @@ fn main() {
         };
         let it = &{
             let mut it2 = it.clone();
-            it2.spec = subst_alias(&it.spec);
-            for l in it2.loops.iter_mut() {
-                l.inv = subst_alias(&l.inv);
-                // an `invariant` header left without clauses is removed
-                if l.inv.trim() == "invariant" {
-                    l.inv = String::new();
-                }
+            it2.spec = tag_lines(&subst_alias(&it.spec), &format!("I{}.S", k), true, &job.drop_keys);
+            for (li, l) in it2.loops.iter_mut().enumerate() {
+                l.inv = tag_lines(&subst_alias(&l.inv), &format!("I{}.L{}", k, li), true, &job.drop_keys);
             }
-            for p in it2.proofs.iter_mut() {
-                p.text = subst_alias(&p.text);
+            for (pi, p) in it2.proofs.iter_mut().enumerate() {
+                p.text = tag_lines(&subst_alias(&p.text), &format!("I{}.P{}", k, pi), false, &job.drop_keys);
             }
             it2
         };
@@ -1400,9 +1471,10 @@ fn main() {
         let mut claimed: Vec<usize> = vec![];
         let mut loop_names: BTreeMap<String, usize> = BTreeMap::new();
         for ls in &it.loops {
-            let found: Option<usize> = if let Some(rx) = &ls.matches {
-                let re = Regex::new(rx).unwrap_or_else(|e| fail(&job.report, Report::default(), format!("bad regex {}: {}", rx, e)));
-                (0..lc.loops.len()).find(|k| !claimed.contains(k) && re.is_match(&lc.loops[*k].header))
+            let found: Option<usize> = if ls.matches.is_some() || ls.body.is_some() {
+                let re = Regex::new(ls.matches.as_deref().unwrap_or("")).unwrap_or_else(|e| fail(&job.report, Report::default(), format!("bad regex: {}", e)));
+                let reb = Regex::new(ls.body.as_deref().unwrap_or("")).unwrap_or_else(|e| fail(&job.report, Report::default(), format!("bad regex: {}", e)));
+                (0..lc.loops.len()).find(|k| !claimed.contains(k) && re.is_match(&lc.loops[*k].header) && reb.is_match(&lc.loops[*k].body_text))
             } else {
                 ls.ord.filter(|o| *o < lc.loops.len())
             };
